@@ -59,3 +59,8 @@ check("C19", "model_checking", "explicit-state breadth-first search over context
       "BFS over all action sequences of {enter one of 4 context configurations, leave the innermost context, run a real importance-sampling call in the body, raise an Exception subclass, raise KeyboardInterrupt} up to nesting depth 3/4 and 6/7 actions: at every exit (normal or by exception) likelihood and prior (object identity) and the checkpoint defaults (identity and content) must equal what they were at the matching entry, after a full unwind the pre-entry state (attribute absent if it was absent), each pool closed and joined exactly once iff asked, overrides really active while inside, the injected exception propagates unchanged.",
       "ExitStack == nested with-statements; FakePool; faults between body operations, not inside __enter__/__exit__.",
       "DESIGN.md 4/C19", engine="bfs")
+
+check("C15", "exploration", "exhaustive configuration enumeration (class x ordered namespace pair x dtype x request spelling x field subset x route) with value/width/field oracles; sampler populations observed on real runs",
+      "The full product of sample class x 9 ordered namespace pairs x source float width x requested-dtype spelling (none, string, native object) x optional-field subset x route {to_namespace, to_numpy, from_samples(xp=)} is executed and must succeed, preserve every value and optional field (incl. temperature and evidence) and keep or honour the float width; the dtype helpers are run over 8 spellings x 3 namespaces (resolve, encode/decode, convert to every namespace); the dtype of every population a real SMC run builds, stores, restores from a checkpoint and returns is compared with the requested precision (smc, emcee_smc x numpy, torch[, jax] x float32/64); sample_posterior's output-namespace option over all pairs; zuko/flowjax outputs are consumed by Samples in every namespace.",
+      "Stub kernels for the sampler part; values chosen so that a silent narrowing changes them.",
+      "DESIGN.md 4/C15")
